@@ -23,7 +23,6 @@ WHY = {
     "setjmp-beyond-rstack-max": "array sized by a constant while the option is a run-time value: allocation design",
     "native-symbol-filter": "python and native symbols share one filter namespace in libmcount: a design decision",
     "lost-after-inherited-wrap": "needs a decision what a LOST marker means for frames inherited at fork",
-    "threshold-boundary": "record (>) and replay (>=) disagree on the boundary; which one is documented is undecided",
     "no-libcall-replay-vs-report": "order of the symbol-type test differs between command loops; behavioural choice",
     "raw-dump-ignores-time-filter": "raw dump bypasses the look-ahead reader by design; manual lists the options",
     "filter-below-depth-trigger": "record and replay count depth from different origins under nested -F: semantic choice",
